@@ -70,7 +70,12 @@ RULE = ("One case = JSON description of one ADAS file plus the call forms: forma
         "neighbouring absent keys), then a second, different file is parsed and installed (ADF11: into the same repository, "
         "disjoint Z1 range of the same class when there is room) and the first file's parse result and repository tables must be "
         "intact, a repeated parse / get bit-identical, returned arrays unaliased (poisoned, then re-read), the source file's bytes "
-        "and the install_files configuration unchanged, and $HOME empty whenever repository_path was given. Non-trivial = a grid "
+        "and the install_files configuration unchanged, and $HOME empty whenever repository_path was given. Interference: the second file B (its sizes, block count and seed are part "
+        "of the case; bigger or smaller than A) is parsed before or after A ('first'), both are parsed again (X, Y, X, Y): first use "
+        "of each matches the oracle, first-round results intact, repeats bit-identical and unaliased; B is installed into a second "
+        "repository before A's first install when first = B; finally two repositories alternately (B -> repo2, A -> its repository "
+        "again, B -> repo3): repo2 and repo3 must be byte-identical, hold B's tables and none of A's keys, A's repository must read "
+        "back bit-identically. Non-trivial = a grid "
         "size that is not a multiple of the per-line count (8; ADF12: 6), or >= 2 blocks, or a resolved ADF11 file, or first "
         "temperature < 1 eV (negative log10).")
 ASSUMPTIONS = ["the writers reproduce the published ADAS FORMAT statements; no real ADAS file is available offline",
@@ -100,6 +105,9 @@ REQUIRED_LABELS = (
     + ["adf2x:" + x for x in ["adf21", "bmp", "bme", "ep:parse_adf21", "ep:parse_adf22bmp", "ep:parse_adf22bme",
                               "ep:install_adf21", "ep:install_adf22bmp", "ep:install_adf22bme", "ep:install_files",
                               "ep:parse_adas2x_rate", "ep:readvalues", "species:isotope", "q:np", "tr:str"] + _FORM_LABELS]
+    + [sub + ":" + x for sub in ("adf11", "adf15", "adf12", "adf2x")
+       for x in ("interference:parse", "interference:install-alternate", "repeat", "order:A-first", "order:B-first", "second:bigger",
+                 "second:smaller")]
     + ["negative:" + x for x in ["adf11-element", "adf15-absent", "missing-file", "adf11-how:other", "adf11-how:name", "adf11-how:z",
                                  "adf11-how:isotope"]])
 
@@ -114,6 +122,7 @@ _Z = {n: EL[n].atomic_number for n in EL}
 SIZES = [1, 2, 7, 8, 9, 15, 16, 17, 24, 25, 32, 33, 40]
 _size = st.one_of(st.integers(1, 40), st.sampled_from(SIZES), st.integers(1, 12))
 _seed = st.integers(0, 2 ** 32 - 1)
+_small = st.one_of(st.integers(1, 16), st.sampled_from([1, 2, 8, 9, 24]))      # sizes of the second (interfering) file
 TRAILER = ["C", "C  Written by the C08 oracle (vf/oracles/adf_writers.py); numbers are synthetic.", "C",
            "C  PRODUCER : verif", "C  DATE     : 28/09/26", "C"]
 _forms = st.fixed_dictionaries({"via": st.sampled_from(["direct", "direct", "files"]), "call": st.sampled_from(["kw", "pos"]),
@@ -243,8 +252,8 @@ class Env:
     def __enter__(self):
         _reset_home()
         self.top = tempfile.mkdtemp(prefix="vf_c08_")
-        self.adas, self.repo, self.repo2 = (os.path.join(self.top, n) for n in ("adas", "repo", "repo2"))
-        for p in (self.adas, self.repo, self.repo2):
+        self.adas, self.repo, self.repo2, self.repo3 = (os.path.join(self.top, n) for n in ("adas", "repo", "repo2", "repo3"))
+        for p in (self.adas, self.repo, self.repo2, self.repo3):
             os.makedirs(p)
         default = self.forms["repo"] == "default"
         self.repo_arg = None if default else self.repo          # what is passed to install_* / get_*
@@ -355,6 +364,72 @@ def _get_twice(ctx, what, fn):
     return b
 
 
+def _dir_bytes(root):
+    """relative path -> content of every repository file (the download cache is not repository data)"""
+    out = {}
+    for rel in _files(root):
+        if not rel.startswith("_download_cache"):
+            with open(os.path.join(root, rel), "rb") as f:
+                out[rel] = f.read()
+    return out
+
+
+def _interleave(ctx, name, first, parse_a, parse_b, check_a, check_b):
+    """function-style entry point under interference: X, Y (or Y, X), then X and Y again.
+    parse_x(kw) calls the parser (kw: keyword-argument form), check_x(result) compares it with the file's numbers.
+    The first use of each file must match the oracle whatever was parsed before it; the results of the first round must be
+    intact after the second round; every repeat must be bit-identical and must not share memory with the earlier result."""
+    order = [("A", parse_a, check_a), ("B", parse_b, check_b)]
+    if first == "B":
+        order.reverse()
+    res, snaps, extra = {}, {}, {}
+    for tag, parse, check in order:
+        with ctx.cut("%s(%s)" % (name, "first file" if tag == "A" else "second file")):
+            res[tag] = parse(False)
+        extra[tag] = check(res[tag])
+        snaps[tag] = _snap(res[tag])
+    again = {}
+    for tag, parse, check in order:
+        with ctx.cut("%s(repeat, %s)" % (name, "first file" if tag == "A" else "second file")):
+            again[tag] = parse(True)
+    for tag, _, _ in order:
+        _reuse(ctx, "interference/%s/%s" % (name, tag), res[tag], snaps[tag], again[tag])
+    ctx.label("interference:parse", "repeat", "order:%s-first" % first)
+    return extra["A"], extra["B"]
+
+
+def _alternate(ctx, env, what, install_a, install_b, read_a, check_b, absent_a, b_in_repo2):
+    """installer under interference: B -> repo2 (unless done), A -> its repository again, B -> repo3.
+    The two B-only repositories (different histories) must be byte-identical, hold B's tables and nothing of A;
+    A's repository must read back exactly as before."""
+    with ctx.cut(what + "(read before alternation)"):
+        before = _snap(read_a())
+    with ctx.cut(what + "(alternating repositories)"):
+        if not b_in_repo2:
+            install_b(env.repo2)
+        install_a()
+        install_b(env.repo3)
+    if env.forms["repo"] == "explicit":
+        _no_stray(ctx, what + "(alternating repositories)")
+    r2, r3 = _dir_bytes(env.repo2), _dir_bytes(env.repo3)
+    ctx.check(sorted(r2) == sorted(r3), "interference/install/files",
+              lambda: "the same file installed into two fresh repositories (before / after re-installing another file) created "
+                      "different files: %r vs %r" % (sorted(r2)[:5], sorted(r3)[:5]))
+    for rel in r2:
+        ctx.check(r2[rel] == r3[rel], "interference/install/content",
+                  lambda: "repository file %r differs between two fresh repositories that received the same ADF file" % rel)
+    check_b(env.repo3)
+    absent_a(env.repo3)
+    with ctx.cut(what + "(read after alternation)"):
+        after = _snap(read_a())
+    ctx.check(after == before, "interference/install/reinstall", "re-installing the same file changed what the repository returns")
+    ctx.label("interference:install-alternate")
+
+
+def _bigger(ctx, na, nb):
+    ctx.label("second:bigger" if nb > na else "second:smaller" if nb < na else "second:same-size")
+
+
 def _grid_f(s, start, n, lo=1000, hi=60000):
     """n increasing F10.5 lattice values (integers, units of 1e-5) from `start`"""
     out, k = [], int(start)
@@ -413,7 +488,9 @@ def adf11_cases(draw):
             "dash": draw(st.sampled_from([71, 80])), "lead": draw(st.sampled_from(["", " "])),
             "iprt": True if resolved else draw(st.booleans()), "project": draw(st.integers(0, len(PROJECTS) - 1)),
             "vmode": draw(st.sampled_from(["random", "random", "random", "const", "ties", "edge"])),
-            "donor": draw(st.sampled_from(DONORS)), "seed": draw(_seed), "forms": draw(_forms)}
+            "donor": draw(st.sampled_from(DONORS)), "seed": draw(_seed), "forms": draw(_forms),
+            "first": draw(st.sampled_from(["A", "B"])),
+            "second": {"nd": draw(_small), "nt": draw(_small), "nblk": draw(st.integers(1, 4)), "seed": draw(_seed)}}
     if EXCLUDE_LINE4 and not resolved and nd <= 8 and lt0 < 0:
         case["lt0"] = -lt0
         case["excluded_known"] = True
@@ -449,19 +526,24 @@ def build_adf11(case, name=None, z=None):
 
 
 def _second_adf11(case):
-    """a different file of the same element: the next Z1 range of the same class when there is room (it is merged into the same
-    repository file), otherwise the next class"""
+    """the interfering file B (sizes and seed are part of the generated case): same element, the next Z1 range of the same class
+    when there is room (it is then merged into the same repository file), otherwise the next class"""
     z = _Z[case["el"]]
     zmax = case["z1min"] + case["nblk"] - 1
-    b = dict(case, seed=case["seed"] ^ 0x5DEECE66, nd=case["nt"] % 11 + 1, nt=case["nd"] % 13 + 1, resolved=not case["resolved"],
-             iprt=True, vmode="random")
+    sec = case.get("second") or {"nd": case["nt"] % 11 + 1, "nt": case["nd"] % 13 + 1, "nblk": 3, "seed": case["seed"] ^ 0x5DEECE66}
+    b = dict(case, seed=sec["seed"], nd=sec["nd"], nt=sec["nt"], resolved=not case["resolved"], iprt=True, vmode="random")
     if EXCLUDE_LINE4:
         b["lt0"] = abs(case["lt0"])
     if zmax < z:
-        b.update(z1min=zmax + 1, nblk=min(z - zmax, 3))
+        b.update(z1min=zmax + 1, nblk=min(z - zmax, sec["nblk"]))
     else:
-        b.update(cls=CLASSES[(CLASSES.index(case["cls"]) + 1) % len(CLASSES)], z1min=1, nblk=min(z, 2))
+        b.update(cls=CLASSES[(CLASSES.index(case["cls"]) + 1) % len(CLASSES)], z1min=1, nblk=min(z, sec["nblk"]))
     return b
+
+
+def _install_adf11(case, el, rel, adas, repo):
+    """plain keyword-form install of an ADF11 file (kept for vf/props/c06.py)"""
+    return _quiet(getattr(I, ADF11[case["cls"]][1]), *_args_adf11(case, el), rel, download=False, repository_path=repo, adas_path=adas)
 
 
 def _nt_adf11(case):
@@ -525,6 +607,7 @@ def run_adf11(case, ctx):
     cls = case["cls"]
     el = EL[case["el"]]
     forms = case.get("forms", PLAIN)
+    first = case.get("first", "A")
     d, text = build_adf11(case)
     ctx.label(cls, "resolved" if case["resolved"] else "unresolved", "blocks:%s" % min(case["nblk"], 4),
               "nd%%8:%d" % bool(case["nd"] % 8), "nt%%8:%d" % bool(case["nt"] % 8), "vmode:" + case.get("vmode", "random"))
@@ -544,31 +627,47 @@ def run_adf11(case, ctx):
     d2, text2 = build_adf11(case2)
     rel2 = "second/" + ADF11[case2["cls"]][3] % el.symbol.lower()
     ctx.label("second:same-class" if case2["cls"] == cls else "second:other-class")
+    _bigger(ctx, case["nd"] * case["nt"] * case["nblk"], case2["nd"] * case2["nt"] * case2["nblk"])
+    plain = dict(PLAIN, repo=forms["repo"])
     with Env(rel, text, forms) as env:
+        path2 = env.second(rel2, text2)
         # ---- parser: log10 values in file units, table indexed (density, temperature), keyed by the Z1 of the block
         ctx.label("ep:parse_adf11")
-        with ctx.cut("parse_adf11"):
-            got = P.parse_adf11(el, env.path)
-        _check_parse_adf11(ctx, case, d, el, got, "")
-        snap = _snap(got)
-        path2 = env.second(rel2, text2)
-        with ctx.cut("parse_adf11(second file)"):
-            got2 = P.parse_adf11(el, path2)
-        _check_parse_adf11(ctx, case2, d2, el, got2, "second/")
-        with ctx.cut("parse_adf11(repeat)"):
-            again = P.parse_adf11(element=el, adf_file_path=env.path)
-        _reuse(ctx, "reuse/parse_adf11", got, snap, again)
+        _interleave(ctx, "parse_adf11", first,
+                    lambda kw: P.parse_adf11(element=el, adf_file_path=env.path) if kw else P.parse_adf11(el, env.path),
+                    lambda kw: P.parse_adf11(element=el, adf_file_path=path2) if kw else P.parse_adf11(el, path2),
+                    lambda got: _check_parse_adf11(ctx, case, d, el, got, ""),
+                    lambda got: _check_parse_adf11(ctx, case2, d2, el, got, "second/"))
+
+        def install_b(repo):
+            _install(ctx, ADF11[case2["cls"]][1], _args_adf11(case2, el), env, plain, rel=rel2, repo_arg=repo)
+
+        def absent_a(repo):        # nothing of the first file may show up in a repository that only received the second one
+            _absent(ctx, "interference/install/leak", lambda *a: _get_adf11(case, *a), el, d["blocks"][0]["z1"] + ADF11[cls][0], repo)
+        if first == "B":           # the second file is installed (elsewhere) before the first one is used for the first time
+            with ctx.cut("install_adf11" + case2["cls"] + "(second file, other repository)"):
+                install_b(env.repo2)
+            _check_repo_adf11(ctx, case2, d2, el, env.repo2, "second-first/", absent=False)
         # ---- install -> repository
         with ctx.cut("install_adf11" + cls):
             _install(ctx, ADF11[cls][1], _args_adf11(case, el), env, forms)
         env.check_sources(ctx)
         _check_repo_adf11(ctx, case, d, el, env.repo_arg, "")
-        # ---- a second file into the same repository, then the first one again
+        # ---- the second file into the same repository, then the first one again
         with ctx.cut("install_adf11" + case2["cls"] + "(second file)"):
-            _install(ctx, ADF11[case2["cls"]][1], _args_adf11(case2, el), env, dict(PLAIN, repo=forms["repo"]), rel=rel2)
+            _install(ctx, ADF11[case2["cls"]][1], _args_adf11(case2, el), env, plain, rel=rel2)
         env.check_sources(ctx)
         _check_repo_adf11(ctx, case2, d2, el, env.repo_arg, "second/", absent=False)
         _check_repo_adf11(ctx, case, d, el, env.repo_arg, "after-second/", absent=False, sample=True)
+        # ---- two repositories alternately
+        sample = [d["blocks"][0], d["blocks"][len(d["blocks"]) // 2], d["blocks"][-1]]
+        _alternate(ctx, env, "install_adf11" + cls,
+                   lambda: _install(ctx, ADF11[cls][1], _args_adf11(case, el), env, forms),
+                   install_b,
+                   lambda: [_get_adf11(case, el, b["z1"] + ADF11[cls][0], env.repo_arg) for b in sample],
+                   lambda repo: _check_repo_adf11(ctx, case2, d2, el, repo, "alternate/second/", absent=False, sample=True),
+                   absent_a, first == "B")
+        env.check_sources(ctx)
 
 
 # ============================================================================================== ADF15
@@ -606,7 +705,9 @@ def adf15_cases(draw, absent=False, modes=None):
     case = {"mode": mode, "el": el, "charge": q, "style": style, "nlev": nlev, "blocks": blocks,
             "unit": draw(st.sampled_from([" A", "A"])), "order": draw(st.sampled_from(["file", "reversed"])),
             "isel0": draw(st.sampled_from([1, 1, 1, 95, 996])), "vmode": draw(st.sampled_from(["random", "random", "const"])),
-            "qform": draw(st.sampled_from(["int", "np"])), "seed": draw(_seed), "install": True, "forms": draw(_forms)}
+            "qform": draw(st.sampled_from(["int", "np"])), "seed": draw(_seed), "install": True, "forms": draw(_forms),
+            "first": draw(st.sampled_from(["A", "B"])),
+            "second": {"sizes": [[draw(_small), draw(_small)] for _ in range(3)], "seed": draw(_seed)}}
     if absent:
         case["absent"] = draw(st.integers(0, len(blocks) - 1))
     elif EXCLUDE_CHEXC and any(b["type"] == "CHEXC" for b in blocks):
@@ -690,8 +791,11 @@ def _nt_adf15(case):
 
 
 def _second_adf15(case):
-    b = dict(case, seed=case["seed"] ^ 0x2545F491, order="file", isel0=1, vmode="random",
-             blocks=[dict(c, nd=c["nt"] % 9 + 1, nt=c["nd"] % 7 + 1) for c in reversed(case["blocks"][:3])])
+    """the interfering file B: same species and index style, up to three of A's transitions with other grid sizes and numbers"""
+    sec = case.get("second") or {"sizes": [[c["nt"] % 9 + 1, c["nd"] % 7 + 1] for c in case["blocks"][:3]] * 3, "seed": case["seed"] ^ 0x2545F491}
+    picked = list(reversed(case["blocks"][:3]))
+    b = dict(case, seed=sec["seed"], order="file", isel0=1, vmode="random",
+             blocks=[dict(c, nd=sec["sizes"][k][0], nt=sec["sizes"][k][1]) for k, c in enumerate(picked)])
     b.pop("absent", None)
     return b
 
@@ -751,13 +855,15 @@ def _check_repo_adf15(ctx, case, expected, want_wl, el, q, repo, tag):
 def run_adf15(case, ctx):
     el, q = EL[case["el"]], case["charge"]
     forms = case.get("forms", PLAIN)
+    first = case.get("first", "A")
     qa = _q(q, case.get("qform", "int"))
+    hf = _hf(case)
     d, text, expected = build_adf15(case)
     ctx.label("style:" + case["style"], "mode:" + case["mode"], "blocks:%s" % min(len(case["blocks"]), 4),
               "q:" + case.get("qform", "int"), *["type:" + t for t in sorted({b["type"] for b in case["blocks"]})])
     if case["el"] in ISOTOPES:
         ctx.label("species:isotope")
-    if _hf(case):
+    if hf:
         ctx.label("hf:given")
     if _hf_differs(case):
         ctx.label("hf:differs-from-auto")
@@ -767,29 +873,47 @@ def run_adf15(case, ctx):
     rel = _rel_adf15(case)
     case2 = _second_adf15(case)
     d2, text2, expected2 = build_adf15(case2)
+    _bigger(ctx, sum(b["nd"] * b["nt"] for b in case["blocks"]), sum(b["nd"] * b["nt"] for b in case2["blocks"]))
     with Env(rel, text, forms) as env:
-        ctx.label("ep:parse_adf15")
-        with ctx.cut("parse_adf15"):
-            if _hf(case):
-                rates, wavelengths = P.parse_adf15(el, qa, env.path, header_format=_hf(case))
-            else:
-                rates, wavelengths = P.parse_adf15(el, qa, env.path)          # header_format omitted: automatic choice
-        want_wl = _check_parse_adf15(ctx, case, expected, el, q, rates, wavelengths, "")
-        snap = _snap((rates, wavelengths))
         path2 = env.second("second/" + rel, text2)
-        with ctx.cut("parse_adf15(second file)"):
-            r2, w2 = P.parse_adf15(el, q, path2, _hf(case))
-        want_wl2 = _check_parse_adf15(ctx, case2, expected2, el, q, r2, w2, "second/")
-        with ctx.cut("parse_adf15(repeat)"):
-            again = P.parse_adf15(element=el, charge=q, adf_file_path=env.path, header_format=_hf(case))
-        _reuse(ctx, "reuse/parse_adf15", (rates, wavelengths), snap, again)
+        ctx.label("ep:parse_adf15")
+
+        def parse_a(kw):
+            if kw:
+                return P.parse_adf15(element=el, charge=q, adf_file_path=env.path, header_format=hf)
+            if hf:
+                return P.parse_adf15(el, qa, env.path, header_format=hf)
+            return P.parse_adf15(el, qa, env.path)          # header_format omitted: automatic choice
+        want_wl, want_wl2 = _interleave(
+            ctx, "parse_adf15", first, parse_a,
+            lambda kw: P.parse_adf15(element=el, charge=q, adf_file_path=path2, header_format=hf) if kw else P.parse_adf15(el, q, path2, hf),
+            lambda got: _check_parse_adf15(ctx, case, expected, el, q, got[0], got[1], ""),
+            lambda got: _check_parse_adf15(ctx, case2, expected2, el, q, got[0], got[1], "second/"))
         if not case["install"]:
             return
+
+        def install_b(repo):
+            _install(ctx, "install_adf15", (el, q), env, PLAIN, header_format=hf, rel="second/" + rel, repo_arg=repo)
+        keys2 = {(c, t) for c, t, _ in expected2}
+        only_a = [(c, t) for c, t, _ in expected if (c, t) not in keys2]
+
+        def absent_a(repo):
+            for c, t in only_a[:2]:
+                if c == "excitation":
+                    _absent(ctx, "interference/install/leak", R.get_pec_excitation_rate, el, q, t, repo)
+                elif c == "recombination":
+                    _absent(ctx, "interference/install/leak", R.get_pec_recombination_rate, el, q, t, repo)
+                else:
+                    _absent(ctx, "interference/install/leak", R.get_pec_thermal_cx_rate, E.hydrogen, 0, el, q + 1, t, repo)
+        if first == "B":
+            with ctx.cut("install_adf15(second file, other repository)"):
+                install_b(env.repo2)
+            _check_repo_adf15(ctx, case2, expected2, want_wl2, el, q, env.repo2, "second-first/")
         # ---- install -> repository
         if _hf_differs(case):
             ctx.label("hf:differs-from-auto+install")
         with ctx.cut("install_adf15"):
-            _install(ctx, "install_adf15", (el, qa), env, forms, header_format=_hf(case))
+            _install(ctx, "install_adf15", (el, qa), env, forms, header_format=hf)
         env.check_sources(ctx)
         _check_repo_adf15(ctx, case, expected, want_wl, el, q, env.repo_arg, "")
         # a transition the file does not hold
@@ -803,13 +927,28 @@ def run_adf15(case, ctx):
                 if cc != c and (c, t) not in have:
                     _absent(ctx, "repo/absent-class", fn, el, q, t, env.repo_arg)
                     break
-        # ---- second file into another repository; the first repository must be unaffected
-        with ctx.cut("install_adf15(second file)"):
-            _install(ctx, "install_adf15", (el, q), env, PLAIN, header_format=_hf(case), rel="second/" + rel, repo_arg=env.repo2)
-        if forms["repo"] == "explicit":
-            _no_stray(ctx, "install_adf15(second file)")
-        _check_repo_adf15(ctx, case2, expected2, want_wl2, el, q, env.repo2, "second/")
-        _check_repo_adf15(ctx, case, expected, want_wl, el, q, env.repo_arg, "after-second/")
+        # ---- two repositories alternately (the second file never enters the first file's repository: same keys)
+        _alternate(ctx, env, "install_adf15",
+                   lambda: _install(ctx, "install_adf15", (el, qa), env, forms, header_format=hf),
+                   install_b,
+                   lambda: [_snap(fn(*a)) for fn, a in _readers_adf15(expected[:3], el, q, env.repo_arg)],
+                   lambda repo: _check_repo_adf15(ctx, case2, expected2, want_wl2, el, q, repo, "alternate/second/"),
+                   absent_a, first == "B")
+        env.check_sources(ctx)
+        _check_repo_adf15(ctx, case, expected[:2], want_wl, el, q, env.repo_arg, "after-second/")
+
+
+def _readers_adf15(expected, el, q, repo):
+    out = []
+    for c, t, _ in expected:
+        if c == "excitation":
+            out.append((R.get_pec_excitation_rate, (el, q, t, repo)))
+        elif c == "recombination":
+            out.append((R.get_pec_recombination_rate, (el, q, t, repo)))
+        else:
+            out.append((R.get_pec_thermal_cx_rate, (E.hydrogen, 0, el, q + 1, t, repo)))
+        out.append((R.get_wavelength, (el, q, t, repo)))
+    return out
 
 
 # ============================================================================================== ADF12
@@ -824,7 +963,10 @@ def adf12_cases(draw):
     blocks = [{"up": u, "lo": lo, "n": [draw(cnt24), draw(cnt12), draw(cnt24), draw(cnt12), draw(cnt12)]} for u, lo in pairs]
     return {"donor": draw(st.sampled_from(["hydrogen", "helium", "deuterium"])), "meta": draw(st.integers(1, 3)), "rec": rec,
             "zr": draw(st.one_of(st.just(z), st.integers(1, z))), "blocks": blocks, "letter": draw(st.sampled_from(["D", "E"])),
-            "qform": draw(st.sampled_from(["int", "np"])), "seed": draw(_seed), "forms": draw(_forms)}
+            "qform": draw(st.sampled_from(["int", "np"])), "seed": draw(_seed), "forms": draw(_forms),
+            "first": draw(st.sampled_from(["A", "B"])),
+            "second": {"n": [[draw(cnt24), draw(cnt12), draw(cnt24), draw(cnt12), draw(cnt12)] for _ in range(3)],
+                       "nblk": draw(st.integers(1, 3)), "seed": draw(_seed)}}
 
 
 def build_adf12(case):
@@ -887,6 +1029,7 @@ def _check_repo_adf12(ctx, d, don, meta, rec, zr, repo, tag):
 def run_adf12(case, ctx):
     don, rec, zr, meta = EL[case["donor"]], EL[case["rec"]], case["zr"], case["meta"]
     forms = case.get("forms", PLAIN)
+    first = case.get("first", "A")
     zra = _q(zr, case.get("qform", "int"))
     d, text = build_adf12(case)
     ctx.label("blocks:%s" % min(len(case["blocks"]), 4), "letter:" + case["letter"], "q:" + case.get("qform", "int"))
@@ -896,23 +1039,33 @@ def run_adf12(case, ctx):
         ctx.label("count:max")
     ctx.nt(_nt_adf12(case))
     rel = "adf12/qef93#%s/qef93#%s_%s%d.dat" % (don.symbol.lower(), don.symbol.lower(), rec.symbol.lower(), zr)
-    # second file: another donor, so that it lives in another repository file
-    case2 = dict(case, donor=_OTHER_DONOR[case["donor"]], seed=case["seed"] ^ 0x1234567, blocks=[dict(c, n=[c["n"][2], c["n"][3], c["n"][0], c["n"][4], c["n"][1]]) for c in case["blocks"][:2]])
+    # interfering file B: another donor (so that it lives in another repository file), generated counts and numbers
+    sec = case.get("second") or {"n": [[c["n"][2], c["n"][3], c["n"][0], c["n"][4], c["n"][1]] for c in case["blocks"]] * 3, "nblk": 2,
+                                 "seed": case["seed"] ^ 0x1234567}
+    case2 = dict(case, donor=_OTHER_DONOR[case["donor"]], seed=sec["seed"],
+                 blocks=[dict(c, n=sec["n"][k]) for k, c in enumerate(case["blocks"][:sec["nblk"]])])
     don2 = EL[case2["donor"]]
     d2, text2 = build_adf12(case2)
+    _bigger(ctx, sum(sum(c["n"]) for c in case["blocks"]), sum(sum(c["n"]) for c in case2["blocks"]))
+    plain = dict(PLAIN, repo=forms["repo"])
     with Env(rel, text, forms) as env:
-        ctx.label("ep:parse_adf12")
-        with ctx.cut("parse_adf12"):
-            got = P.parse_adf12(don, meta, rec, zra, env.path)
-        _check_parse_adf12(ctx, d, don, meta, rec, zr, got, "")
-        snap = _snap(got)
         path2 = env.second("second/" + rel, text2)
-        with ctx.cut("parse_adf12(second file)"):
-            got2 = P.parse_adf12(don2, meta, rec, zr, path2)
-        _check_parse_adf12(ctx, d2, don2, meta, rec, zr, got2, "second/")
-        with ctx.cut("parse_adf12(repeat)"):
-            again = P.parse_adf12(donor_ion=don, donor_metastable=meta, receiver_ion=rec, receiver_charge=zra, adf_file_path=env.path)
-        _reuse(ctx, "reuse/parse_adf12", got, snap, again)
+        ctx.label("ep:parse_adf12")
+        _interleave(ctx, "parse_adf12", first,
+                    lambda kw: P.parse_adf12(donor_ion=don, donor_metastable=meta, receiver_ion=rec, receiver_charge=zra, adf_file_path=env.path)
+                    if kw else P.parse_adf12(don, meta, rec, zra, env.path),
+                    lambda kw: P.parse_adf12(donor_ion=don2, donor_metastable=meta, receiver_ion=rec, receiver_charge=zr, adf_file_path=path2)
+                    if kw else P.parse_adf12(don2, meta, rec, zr, path2),
+                    lambda got: _check_parse_adf12(ctx, d, don, meta, rec, zr, got, ""),
+                    lambda got: _check_parse_adf12(ctx, d2, don2, meta, rec, zr, got, "second/"))
+
+        def install_b(repo):
+            _install(ctx, "install_adf12", (don2, meta, rec, zr), env, plain, rel="second/" + rel, repo_arg=repo)
+        t_a = (d["blocks"][0]["upper"], d["blocks"][0]["lower"])
+        if first == "B":
+            with ctx.cut("install_adf12(second file, other repository)"):
+                install_b(env.repo2)
+            _check_repo_adf12(ctx, d2, don2, meta, rec, zr, env.repo2, "second-first/")
         with ctx.cut("install_adf12"):
             _install(ctx, "install_adf12", (don, meta, rec, zra), env, forms)
         env.check_sources(ctx)
@@ -921,10 +1074,18 @@ def run_adf12(case, ctx):
         if (40, 39) not in trs:
             _absent(ctx, "repo/absent-transition", R.get_beam_cx_rates, don, rec, zr, (40, 39), env.repo_arg)
         with ctx.cut("install_adf12(second file)"):
-            _install(ctx, "install_adf12", (don2, meta, rec, zr), env, dict(PLAIN, repo=forms["repo"]), rel="second/" + rel)
+            _install(ctx, "install_adf12", (don2, meta, rec, zr), env, plain, rel="second/" + rel)
         env.check_sources(ctx)
         _check_repo_adf12(ctx, d2, don2, meta, rec, zr, env.repo_arg, "second/")
         _check_repo_adf12(ctx, d, don, meta, rec, zr, env.repo_arg, "after-second/")
+        _alternate(ctx, env, "install_adf12",
+                   lambda: _install(ctx, "install_adf12", (don, meta, rec, zra), env, forms),
+                   install_b,
+                   lambda: [R.get_beam_cx_rates(don, rec, zr, (b["upper"], b["lower"]), env.repo_arg) for b in d["blocks"][:3]],
+                   lambda repo: _check_repo_adf12(ctx, d2, don2, meta, rec, zr, repo, "alternate/second/"),
+                   lambda repo: _absent(ctx, "interference/install/leak", R.get_beam_cx_rates, don, rec, zr, t_a, repo),
+                   first == "B")
+        env.check_sources(ctx)
 
 
 # ============================================================================================== ADF21 / ADF22
@@ -941,7 +1102,9 @@ def adf2x_cases(draw):
             "meta": draw(st.integers(1, 4)), "tgt": tgt, "zt": draw(st.one_of(st.just(z), st.integers(1, z))),
             "tr": draw(st.sampled_from([[3, 2], [4, 2], [2, 1], [5, 3]])), "trform": draw(st.sampled_from(["int", "str"])),
             "neb": draw(_size), "ndt": draw(_size), "ntt": draw(_size), "vmode": draw(st.sampled_from(["random", "random", "const"])),
-            "qform": draw(st.sampled_from(["int", "np"])), "seed": draw(_seed), "forms": draw(_forms)}
+            "qform": draw(st.sampled_from(["int", "np"])), "seed": draw(_seed), "forms": draw(_forms),
+            "first": draw(st.sampled_from(["A", "B"])),
+            "second": {"neb": draw(_small), "ndt": draw(_small), "ntt": draw(_small), "seed": draw(_seed)}}
 
 
 def build_adf2x(case):
@@ -1013,6 +1176,7 @@ def _nt_adf2x(case):
 def run_adf2x(case, ctx):
     kind = case["kind"]
     forms = case.get("forms", PLAIN)
+    first = case.get("first", "A")
     beam, tgt, zt, meta = EL[case["beam"]], EL[case["tgt"]], case["zt"], case["meta"]
     tri = tuple(case["tr"])                                                   # canonical transition, used for reading
     tr = tuple(str(x) for x in tri) if case.get("trform") == "str" else tri     # the form handed to parse / install
@@ -1030,26 +1194,41 @@ def run_adf2x(case, ctx):
     rel = {"adf21": "adf21/bms97#%s/bms97#%s_%s%d.dat" % (sym[0], sym[0], sym[1], sym[2]),
            "bmp": "adf22/bmp97#%s/bmp97#%s_%d_%s%d.dat" % (sym[0], sym[0], meta, sym[1], sym[2]),
            "bme": "adf22/bme10#%s/bme10#%s_%s%d.dat" % (sym[0], sym[0], sym[1], sym[2])}[kind]
-    # second file: another beam species, so that it lives in another repository file
-    case2 = dict(case, beam=BEAMS[(BEAMS.index(case["beam"]) + 1) % len(BEAMS)], seed=case["seed"] ^ 0x7654321,
-                 neb=case["ntt"] % 9 + 1, ndt=case["neb"] % 7 + 1, ntt=case["ndt"] % 10 + 1, vmode="random")
+    # interfering file B: another beam species (so that it lives in another repository file), generated sizes and numbers
+    sec = case.get("second") or {"neb": case["ntt"] % 9 + 1, "ndt": case["neb"] % 7 + 1, "ntt": case["ndt"] % 10 + 1, "seed": case["seed"] ^ 0x7654321}
+    case2 = dict(case, beam=BEAMS[(BEAMS.index(case["beam"]) + 1) % len(BEAMS)], seed=sec["seed"], neb=sec["neb"], ndt=sec["ndt"],
+                 ntt=sec["ntt"], vmode="random")
     beam2 = EL[case2["beam"]]
     d2, text2 = build_adf2x(case2)
     want2 = _want_adf2x(d2, norm)
+    _bigger(ctx, case["neb"] * case["ndt"] + case["ntt"], case2["neb"] * case2["ndt"] + case2["ntt"])
     info = "(%d energies x %d densities, %d temperatures)" % (case["neb"], case["ndt"], case["ntt"])
+    plain = dict(PLAIN, repo=forms["repo"])
+
+    def check_parse(got, bm, t, w, tag, inf):
+        g = _leaf_adf2x(ctx, kind, got, bm, meta, tgt, zt, t, tag)
+        for k, v in w.items():
+            _eq(ctx, _item(ctx, g, k, tag + "parse/" + k), v, tag + "parse/" + k, inf)
+
+    def check_repo(bm, w, repo, tag, inf):
+        g = _get_twice(ctx, tag + "get/" + kind, lambda: _get_adf2x(kind, bm, meta, tgt, zt, tri, repo))
+        for k, v in w.items():
+            _eq(ctx, _item(ctx, g, k, tag + "repo/" + k), v, tag + "repo/" + k, inf)
     with Env(rel, text, forms) as env:
+        path2 = env.second("second/" + rel, text2)
         ctx.label("ep:" + PARSE2X[kind])
-        with ctx.cut(PARSE2X[kind]):
-            got = _parse_adf2x(kind, beam, meta, tgt, zta, tr, env.path)
-        g = _leaf_adf2x(ctx, kind, got, beam, meta, tgt, zt, tr, "")
-        for k, w in want.items():
-            _eq(ctx, _item(ctx, g, k, "parse/" + k), w, "parse/" + k, info)
-        snap = _snap(got)
-        # the shared reader called directly: default normalisation (1), and an explicit factor
+        _interleave(ctx, PARSE2X[kind], first,
+                    lambda kw: _parse_adf2x(kind, beam, meta, tgt, zta, tr, env.path, kw=kw),
+                    lambda kw: _parse_adf2x(kind, beam2, meta, tgt, zt, tri, path2, kw=kw),
+                    lambda got: check_parse(got, beam, tr, want, "", info),
+                    lambda got: check_parse(got, beam2, tri, want2, "second/", ""))
+        # the shared reader called directly: default normalisation (1), another file in between, an explicit factor
         ctx.label("ep:parse_adas2x_rate", "ep:readvalues")
         with ctx.cut("parse_adas2x_rate"):
             with open(env.path) as f:
                 raw = U.parse_adas2x_rate(f)
+            with open(path2) as f:
+                U.parse_adas2x_rate(f)
             with open(env.path) as f:
                 raw2 = U.parse_adas2x_rate(f, normalisation=2.0)
             with open(env.path) as f:
@@ -1063,33 +1242,33 @@ def run_adf2x(case, ctx):
             _eq(ctx, _item(ctx, raw2, k, "direct/" + k), w, "direct/" + k, info + " parse_adas2x_rate(file, normalisation=2)")
         _eq(ctx, eb, _vals(d["eb"]), "direct/readvalues", info)
         _eq(ctx, dt, _vals(d["dt"]), "direct/readvalues", info)
-        path2 = env.second("second/" + rel, text2)
-        with ctx.cut(PARSE2X[kind] + "(second file)"):
-            got2 = _parse_adf2x(kind, beam2, meta, tgt, zt, tri, path2)
-        g2 = _leaf_adf2x(ctx, kind, got2, beam2, meta, tgt, zt, tri, "second/")
-        for k, w in want2.items():
-            _eq(ctx, _item(ctx, g2, k, "second/parse/" + k), w, "second/parse/" + k, "")
-        with ctx.cut(PARSE2X[kind] + "(repeat)"):
-            again = _parse_adf2x(kind, beam, meta, tgt, zta, tr, env.path, kw=True)
-        _reuse(ctx, "reuse/" + PARSE2X[kind], got, snap, again)
+
+        def install_b(repo):
+            _install(ctx, INSTALL2X[kind], _args_adf2x(kind, beam2, meta, tgt, zt, tri), env, plain, rel="second/" + rel, repo_arg=repo)
+        if first == "B":
+            with ctx.cut(INSTALL2X[kind] + "(second file, other repository)"):
+                install_b(env.repo2)
+            check_repo(beam2, want2, env.repo2, "second-first/", "")
         # ---- install -> repository
         with ctx.cut(INSTALL2X[kind]):
             _install(ctx, INSTALL2X[kind], _args_adf2x(kind, beam, meta, tgt, zta, tr), env, forms)
         env.check_sources(ctx)
-        g = _get_twice(ctx, "get/" + kind, lambda: _get_adf2x(kind, beam, meta, tgt, zt, tri, env.repo_arg))
-        for k, w in want.items():
-            _eq(ctx, _item(ctx, g, k, "repo/" + k), w, "repo/" + k, info)
+        check_repo(beam, want, env.repo_arg, "", info)
         if zt + 1 <= tgt.atomic_number:
             _absent(ctx, "repo/absent-charge", lambda *a: _get_adf2x(kind, *a), beam, meta, tgt, zt + 1, tri, env.repo_arg)
         with ctx.cut(INSTALL2X[kind] + "(second file)"):
-            _install(ctx, INSTALL2X[kind], _args_adf2x(kind, beam2, meta, tgt, zt, tri), env, dict(PLAIN, repo=forms["repo"]), rel="second/" + rel)
+            _install(ctx, INSTALL2X[kind], _args_adf2x(kind, beam2, meta, tgt, zt, tri), env, plain, rel="second/" + rel)
         env.check_sources(ctx)
-        g2 = _get_twice(ctx, "second/get/" + kind, lambda: _get_adf2x(kind, beam2, meta, tgt, zt, tri, env.repo_arg))
-        for k, w in want2.items():
-            _eq(ctx, _item(ctx, g2, k, "second/repo/" + k), w, "second/repo/" + k, "")
-        g = _get_twice(ctx, "after-second/get/" + kind, lambda: _get_adf2x(kind, beam, meta, tgt, zt, tri, env.repo_arg))
-        for k, w in want.items():
-            _eq(ctx, _item(ctx, g, k, "after-second/repo/" + k), w, "after-second/repo/" + k, info)
+        check_repo(beam2, want2, env.repo_arg, "second/", "")
+        check_repo(beam, want, env.repo_arg, "after-second/", info)
+        _alternate(ctx, env, INSTALL2X[kind],
+                   lambda: _install(ctx, INSTALL2X[kind], _args_adf2x(kind, beam, meta, tgt, zta, tr), env, forms),
+                   install_b,
+                   lambda: _get_adf2x(kind, beam, meta, tgt, zt, tri, env.repo_arg),
+                   lambda repo: check_repo(beam2, want2, repo, "alternate/second/", ""),
+                   lambda repo: _absent(ctx, "interference/install/leak", lambda *a: _get_adf2x(kind, *a), beam, meta, tgt, zt, tri, repo),
+                   first == "B")
+        env.check_sources(ctx)
 
 
 # ============================================================================================== negative cases
